@@ -423,6 +423,8 @@ class StmtMixin:
             raise OutOfReach("while loop %s.loop[%s] has no invariant" % (
                 self.frame_func.key if self.frame_func else "?", n))
         name = "%s.loop[%d]" % (self.loop_owner(), n)
+        if self.guard_concretely_false(stmt.test, env, st):
+            return self.exec_block(stmt.orelse, env, st)     # never entered
         self.entry_stack.append((dict(env), {k: h.copy() for k, h in st.heap.items()}))
         try:
             res = []
@@ -466,6 +468,12 @@ class StmtMixin:
                 if spec.decreases is not None:
                     (s_, v0) = self.ev1(self.parse(spec.decreases), en, sg)
                 for (e2, s2, sig, v) in self.exec_block(stmt.body, en, sg):
+                    if sig in ("fall", "continue") and self.guard_concretely_false(
+                            stmt.test, e2, s2):
+                        # the loop test is false in this very state (e.g. the loop
+                        # variable became None): the path leaves the loop here
+                        res += self.exec_block(stmt.orelse, e2, s2)
+                        continue
                     if sig in ("fall", "continue"):
                         for i, b in enumerate(self.inv_holds(spec, e2, s2)):
                             self.oblige("%s.preserve[%d]" % (name, i), s2, b,
@@ -489,6 +497,20 @@ class StmtMixin:
         finally:
             self.entry_stack.pop()
 
+    def guard_concretely_false(self, test, env, st):
+        """True iff the loop test evaluates to the concrete value False without
+        consulting the solver (shape-level decision, e.g. `x is not None`)."""
+        try:
+            np_ = len(self.pending)
+            tmp = st.fork()
+            r = self.ev_cond(test, env, tmp)
+            if len(self.pending) != np_:
+                del self.pending[np_:]
+                return False
+            return len(r) == 1 and r[0][1] is False
+        except OutOfReach:
+            return False
+
     def loop_owner(self):
         if self.frame_func is not None and self.frame_func is not self.cur_func:
             return "%s>%s" % (self.cur_name, self.frame_func.qualname)
@@ -502,7 +524,7 @@ class StmtMixin:
 
     def for_over(self, stmt, it, env, st):
         spec, n = self.loop_spec(stmt)
-        sym = isinstance(it, SeqC) and (is_z3(it.n) or spec is not None) or (
+        sym = isinstance(it, SeqC) and (it.n is None or is_z3(it.n) or spec is not None) or (
             isinstance(it, RangeV) and any(is_z3(x) for x in (it.lo, it.hi, it.step)))
         if hasattr(it, "pyvc_for"):
             return it.pyvc_for(self, stmt, env, st, spec, n)
@@ -593,11 +615,13 @@ class StmtMixin:
             s = st.fork()
             self.havoc_loop(stmt.body, en, s, spec, target=stmt.target, tag="f%d" % n)
             s.assume(i >= 0)
-            s.assume(self.num_cmp(ast.Lt(), i, it.n))
+            if it.n is not None:          # None: an unbounded (infinite) sequence
+                s.assume(self.num_cmp(ast.Lt(), i, it.n))
             for b in self.inv_holds(spec, en, s, {idx: i}):
                 s.assume(b)
             if self.feasible(s.pc):
-                self.assign_target(stmt.target, it.elem(i), en, s, stmt)
+                ev = it.elem(i, s) if getattr(it, "with_state", False) else it.elem(i)
+                self.assign_target(stmt.target, ev, en, s, stmt)
                 en[idx + "__loop"] = i
                 for (e2, s2, sig, v) in self.exec_block(stmt.body, en, s):
                     if sig in ("fall", "continue"):
@@ -611,6 +635,8 @@ class StmtMixin:
             else:
                 self.stats["vacuous_loop_bodies"].append(name)
             # exhausted
+            if it.n is None:
+                return res                # an infinite sequence is never exhausted
             en = dict(env)
             s = st.fork()
             self.havoc_loop(stmt.body, en, s, spec, target=stmt.target, tag="x%d" % n)
@@ -618,7 +644,7 @@ class StmtMixin:
                 s.assume(b)
             # loop variable keeps the last element when n > 0
             npos = self.decide(s, self.num_cmp(ast.Gt(), it.n, 0))
-            if npos is True:
+            if npos is True and not getattr(it, "with_state", False):
                 self.assign_target(stmt.target, it.elem(
                     self.arith(ast.Sub(), it.n, 1, s)), en, s, stmt)
             if self.feasible(s.pc):
